@@ -7,7 +7,7 @@ CONSTANTS
   Ports = {0, 53}
   W = 2
   BufInit = 1
-  MaxReg = 4
+  MaxReg = 3
   MaxItems = 0
   Kinds = {"tcp"}
   Defect = "none"
